@@ -66,6 +66,7 @@ def err_class(e: BaseException) -> str:
 LIVED_IN = 0          # 0 = never; n = every n-th build (set by harness/main.py)
 _builds = 0
 LIVED_STATS = {"lived_in": 0, "lived_in_gave_up": 0}
+FORCE_WHICH = "rotate"      # a replay tries every single perturbation (harness/main.py)
 
 
 def read_battery(tree):
@@ -105,57 +106,65 @@ def read_battery(tree):
             quiet(lambda: (n.first_child(), n.last_child(), n.has_children(), n.get_children()))
 
 
-def live_in(tree, pool):
-    """perturb-and-restore (see above); returns False if the tree could not be brought back to the shape it had"""
+def live_in(tree, pool, which=None):
+    """perturb-and-restore (see above); returns False if the tree could not be brought back to the shape it had.
+    `which` selects the perturbations (0 temporary nodes, 1 reversed child lists, 2 a branch moved away, 3 data / id changed;
+    None = all, in that order).  build() rotates through the single perturbations and "all": with a single one the first read
+    of the tree's life happens in THAT perturbed state (a value computed once at the first read and never refreshed is then
+    a value of the perturbed state)."""
     typed = isinstance(tree, TypedTree)
 
     def shape():
         return [(id(n), id(n.data), repr(n.data_id), getattr(n, "kind", None), id(n.parent), [id(c) for c in n.children]) for n in tree] + [
             [id(c) for c in tree.children]]
 
+    def on(k):
+        return which is None or which == k
+
     want = shape()
     try:
         # (no read in the initial state: a result memoised at the FIRST read and never refreshed would be right again once the
         # tree is back in this state — all reads happen in the perturbed states, the check is the first reader of the final one)
         nodes = list(tree)
-        # 1. a temporary node, added and removed again (below a node that HAS children, and as the only child of a leaf that
-        #    is then removed with keep_children=True: the former leaf must be a leaf again)
-        host = nodes[len(nodes) // 2] if nodes else tree
-        tmp = host.add("TMP-lived-in", before=True, **({"kind": "tmp-kind"} if typed else {}))
-        read_battery(tree)
-        tmp.remove()
-        leaf_hosts = [n for n in nodes if not n.children]
-        if leaf_hosts:
-            tmp = leaf_hosts[-1].add("TMP-lived-in-2", **({"kind": "tmp-kind"} if typed else {}))
+        if on(0):
+            # a temporary node, added and removed again (below a node that HAS children, and as the only child of a leaf
+            # that is then removed with keep_children=True: the former leaf must be a leaf again)
+            host = nodes[len(nodes) // 2] if nodes else tree
+            tmp = host.add("TMP-lived-in", before=True, **({"kind": "tmp-kind"} if typed else {}))
             read_battery(tree)
-            tmp.remove(keep_children=True)
-        # 2. every child list reversed, read, and put back in order
-        parents = [tree.system_root] + [n for n in nodes if n.children]
-        for p in parents:
-            order = {id(c): i for i, c in enumerate(p.children)}
-            p.sort_children(key=lambda c, o=order: -o[id(c)])
-        read_battery(tree)
-        for p in parents:
-            order = {id(c): i for i, c in enumerate(p.children)}
-            p.sort_children(key=lambda c, o=order: -o[id(c)])
-        # 3. a leaf moved to the top level and back to its place
-        leaves = [n for n in nodes if not n.children and n.parent is not None]
-        top_ids = {c.data_id for c in tree.children}
-        leaves = [n for n in leaves if n.data_id not in top_ids]      # (no collision with a top-level node)
-        # ... preferably a whole branch (anything remembered per node about its position must follow for the descendants too)
-        branches = [n for n in nodes if n.children and n.parent is not None and n.data_id not in top_ids]
-        leaves = branches[:1] + leaves
-        if leaves and not typed:      # (TypedNode.move_to is not implemented)
-            n = leaves[0]
-            par, idx = n.parent, n.get_index(**({"any_kind": True} if typed else {}))
-            try:
-                n.move_to(tree, before=True)
+            tmp.remove()
+            leaf_hosts = [n for n in nodes if not n.children]
+            if leaf_hosts:
+                tmp = leaf_hosts[-1].add("TMP-lived-in-2", **({"kind": "tmp-kind"} if typed else {}))
                 read_battery(tree)
-            finally:
-                if n.parent is not par:
-                    n.move_to(par, before=idx)
-        # 4. a node's data changed and changed back (same data object, same id)
-        if nodes:
+                tmp.remove(keep_children=True)
+        if on(1):
+            # every child list reversed, read, and put back in order
+            parents = [tree.system_root] + [n for n in nodes if n.children]
+            for p in parents:
+                order = {id(c): i for i, c in enumerate(p.children)}
+                p.sort_children(key=lambda c, o=order: -o[id(c)])
+            read_battery(tree)
+            for p in parents:
+                order = {id(c): i for i, c in enumerate(p.children)}
+                p.sort_children(key=lambda c, o=order: -o[id(c)])
+        if on(2) and not typed:      # (TypedNode.move_to is not implemented)
+            # a branch (else a leaf) moved to the top level and back to its place: anything remembered per node about its
+            # position must follow for the descendants too
+            top_ids = {c.data_id for c in tree.children}
+            cands = [n for n in nodes if n.children and n.parent is not None and n.data_id not in top_ids][:1] + \
+                    [n for n in nodes if not n.children and n.parent is not None and n.data_id not in top_ids]
+            if cands:
+                n = cands[0]
+                par, idx = n.parent, n.get_index()
+                try:
+                    n.move_to(tree, before=True)
+                    read_battery(tree)
+                finally:
+                    if n.parent is not par:
+                        n.move_to(par, before=idx)
+        if on(3) and nodes:
+            # a node's data changed and changed back (same data object, same id)
             n = nodes[-1]
             d, i = n.data, n.data_id
             try:
@@ -188,7 +197,7 @@ def build(spec, pool, *, typed=False, kinds=None, tree=None):
     if LIVED_IN and given is None:
         _builds += 1
         if _builds % LIVED_IN == 0:
-            if live_in(t, pool):
+            if live_in(t, pool, which=([None, 0, 1, 2, 3][(_builds // LIVED_IN) % 5] if FORCE_WHICH == "rotate" else FORCE_WHICH)):
                 LIVED_STATS["lived_in"] += 1
             else:
                 LIVED_STATS["lived_in_gave_up"] += 1
